@@ -959,7 +959,12 @@ def r9_prefix_languages(rep, g, a):
             ok = A == B
             detail = f'accepts in addition {show(A - B)}; lacks {show(B - A)}'
         rep.check(R, f'{fn}~{rule}', ok, f'{len(A)} prefixes', f'`{fn}` and ABNF `{rule}` differ on 2-byte prefixes: {detail}', loc)
-    # the guard behind the array exclusion
+
+
+
+
+def comma_guard(rep, R, facts):
+    # the value guard the combinator model does not see: the trailing comma is only tried when the list is non-empty
     b = facts.body(P + 'array::array_values')
     okg = False
     for n in walk(b['body']):
@@ -968,7 +973,6 @@ def r9_prefix_languages(rep, g, a):
             if c.get('k') == 'unary' and c.get('op') == '!' and peel(c['a']).get('k') == 'mcall' and peel(c['a']).get('name') == 'is_empty':
                 okg = any(x.get('k') == 'path' and (x.get('path') or '').endswith('ARRAY_SEP') for x in walk(n['then']))
     rep.check(R, 'array::array_values|comma-needs-element', okg, 'opt(ARRAY_SEP) only under !array.is_empty()', 'the trailing comma is accepted in an array without elements (`[,]`)', facts.loc(b))
-
 
 # expected language of a function when it is not literally its ABNF rule: an ABNF expression over the rule names of spec/toml-1.0.0.abnf
 # (`end-of-input` = nothing follows), with the reason
@@ -981,7 +985,7 @@ REG_EXPECT = {
     'table::array_table': ('array-table ' + LT, 'header line'),
     'table::table': ('table ' + LT, 'header line'),
     'array::array': ('array / %x5B %x2C ws-comment-newline %x5D',
-                     'the model does not see the value guard `if !array.is_empty()` in front of the trailing comma; the guard itself is C01/R9 `comma-needs-element`'),
+                     'the model does not see the value guard `if !array.is_empty()` in front of the trailing comma; the guard itself is checked as `comma-needs-element`'),
     'value::value': ('val / %x5B %x2C ws-comment-newline %x5D', 'same as array::array'),
     'document::document': ('[ %xEF.BB.BF ] toml end-of-input', 'optional byte-order mark, then the whole `toml` rule up to the end of input'),
     'trivia::line_trailing': (LT, 'helper rule of the line-wise document parser'),
@@ -989,6 +993,22 @@ REG_EXPECT = {
 }
 # chunked lexing: one call takes a run; the call must lie between the rule and 1*rule
 REG_BETWEEN = {'strings::basic_chars', 'strings::mlb_content', 'strings::mlb_escaped_nl'}
+
+
+def _code_stamp():
+    """the cached comparison results depend on the analysis code as well as on the tree"""
+    import hashlib
+    import os
+    h = hashlib.sha256()
+    here = os.path.dirname(os.path.abspath(__file__))
+    for fn in sorted(os.listdir(here)):
+        if fn.endswith('.py'):
+            h.update(open(os.path.join(here, fn), 'rb').read())
+    for extra in ('spec/toml-1.0.0.abnf', 'allow/anchors.json', 'allow/locals.json'):
+        fp = os.path.join(os.path.dirname(here), extra)
+        if os.path.exists(fp):
+            h.update(open(fp, 'rb').read())
+    return h.hexdigest()[:12]
 
 
 def r10_regular_language(rep, g, a):
@@ -999,7 +1019,7 @@ def r10_regular_language(rep, g, a):
                  'first-byte dispatch, one-byte lookahead, end-of-input, hand-written loops; `val` opaque) accepts exactly the words of its ABNF rule — '
                  'all lengths, up to and including the whole `toml` document rule; a difference is reported with a shortest distinguishing text', floor=58)
     facts = g.facts
-    cache = os.path.join(facts.dir, 'regular1.pkl')
+    cache = os.path.join(facts.dir, f'regular-{_code_stamp()}.pkl')
     res = None
     if os.path.exists(cache):
         try:
@@ -1039,6 +1059,7 @@ def r10_regular_language(rep, g, a):
             os.rename(cache + f'.tmp{os.getpid()}', cache)
         except OSError:
             pass
+    comma_guard(rep, R, facts)
     from .regular import show_word
     for fn, (st, ex, w1, w2, approx, n) in sorted(res.items()):
         key = f'{fn}={ex}'
@@ -1078,8 +1099,8 @@ def rules(rep, facts):
     r4_dispatch(rep, g, a)
     r5_filters(rep, g, a)
     r6_lines(rep, g, a)
-    r8_first_sets(rep, g, a)
-    r9_prefix_languages(rep, g, a)
+    # R8 (FIRST / nullable) and R9 (2-byte prefixes) were the bounded predecessors of R10; R10 decides the same question exactly for every
+    # length and follows helper calls with parser parameters, so the two are no longer evaluated (they only added brittleness)
     r10_regular_language(rep, g, a)
     if 'toml' in facts.crates:
         r7_single_parser(rep, facts)
